@@ -69,6 +69,7 @@ class Lab:
         self.ledger = []  # (index, device name, operation, args)
         self.fail_call = None  # device call index that raises DeviceError
         self.fail_status = None  # device call index whose returned status fails
+        self.fault_at = None
         self.pending = []  # statuses not yet finished: (status, finish_at virtual time)
         self.out = io.StringIO()
         lab = self
@@ -107,7 +108,8 @@ class Lab:
         self.docs, self.msgs, self.trans = [], [], []
         self.RE.subscribe(lambda n, d: self.docs.append((n, d)))
         self.RE.msg_hook = lambda m: self.msgs.append(m)
-        self.RE.state_hook = lambda new, old: self.trans.append((str(old), str(new)))
+        self.trans_meta = []
+        self.RE.state_hook = lambda new, old: (self.trans.append((str(old), str(new))), self.trans_meta.append((len(self.msgs), self.steps, len(self.docs))))
 
     # ------------------------------------------------------------------ pumping
     def pump_once(self):
@@ -130,6 +132,7 @@ class Lab:
         self.ncalls += 1
         self.ledger.append((j, dev.name, op, args))
         if self.fail_call == j:
+            self.fault_at = (self.steps, len(self.msgs), len(self.docs))
             raise DeviceError(f"{dev.name}.{op} failed (call {j})")
         return j
 
@@ -137,6 +140,8 @@ class Lab:
         st = FakeStatus()
         ok = self.fail_status != j
         exc = None if ok else DeviceError(f"status of call {j} failed")
+        if not ok:
+            self.fault_at = (self.steps, len(self.msgs), len(self.docs))
         if delay > 0:
             self.loop.call_later(delay, st.finish, ok, exc)
         else:
